@@ -11,7 +11,7 @@ RULE = ("byte strings of complete instructions over the opcodes the Cancun table
         "come back and the offsets must be the prefix sums. non-trivial = at least one push with a leading-zero immediate or more "
         "than 3 instructions")
 EXHAUSTIVE = {"quick": True, "thorough": True}
-ASSUMPTIONS = ["the listing format is the one of DisplayOp in etk-dasm/src/bin/disease/selectors.rs: mnemonic, space, 0x + hex of the immediate"]
+ASSUMPTIONS = ["the listing format is the one of DisplayOp in etk-dasm/src/bin/disease/selectors.rs: mnemonic, space, 0x + hex of the immediate (DisplayOp itself cannot run in this tree: etk-4byte/src/database.br is empty and reverse_selector panics on every immediate)"]
 
 
 def defined_ops():
